@@ -290,4 +290,116 @@ theorem remove_refines {sys : Sys} {T : Tree} {V : List (Option Node)} (hown : O
           simp only [Tree.remove, hr, hrm, Bool.not_true, Bool.false_eq_true, if_false]
           exact hrep2
 
+theorem Rep.with_roots {P : Addr → Prop} {st : St} {t : Node} {a : Addr} (r : List (Nat × Option Hash))
+    (h : Rep H P st t a) : Rep H P { st with roots := r } t a :=
+  Rep.frame H (st := st) (st' := { st with roots := r }) (fun _ _ _ hc => hc) (fun _ _ hs => hs) (fun _ _ hp _ => hp) h
+
+theorem contains_map_fst (l : List (Nat × Option Node)) (v : Nat) :
+    (l.map (·.1)).contains v = l.any (·.1 == v) := by
+  induction l with
+  | nil => rfl
+  | cons p rest ih =>
+    simp only [List.map_cons, List.contains_cons, List.any_cons, ih]
+    congr 1
+    exact Bool.eq_iff_iff.mpr ⟨fun h => by simpa using (beq_iff_eq.mp h).symm, fun h => by simpa using (beq_iff_eq.mp h).symm⟩
+
+theorem save_refines (hinj : Function.Injective H) {sys : Sys} {T : Tree} {V : List (Option Node)}
+    (hown : Own H sys T V) (fuel : Nat) (hfuel : Adequate fuel T V) :
+    ∃ sys', stepH H Cfg.asIs fuel sys .save = some (sys', .saved (.saved (T.root.map (treeHash H)) (T.version + 1))) ∧
+      Own H sys' T.saveVersion V ∧ RepStable H sys.st sys'.st ∧ Grows sys.st sys'.st := by
+  have hwf' : T.saveVersion.WF := Tree.step_wf T .save hown.wf
+  have hfresh : T.versionExists (T.version + 1) = false := hown.wf.fresh
+  have hTsave : T.saveVersion =
+      ({ root := T.root, version := T.version + 1, lastSaved := T.root, versions := (T.version + 1, T.root) :: T.versions } : Tree) := by
+    simp [Tree.saveVersion, hfresh]
+  have hcont : sys.tree.versions.contains (T.version + 1) = false := by
+    rw [hown.tversions, contains_map_fst]; exact hfresh
+  cases hr : T.root with
+  | none =>
+    have hroot := hown.root
+    rw [hr] at hroot
+    cases hra : sys.tree.root with
+    | some a => rw [hra] at hroot; cases hroot
+    | none =>
+      let st' : St := { sys.st with roots := (T.version + 1, none) :: sys.st.roots }
+      let t' : MT := { root := none, version := T.version + 1, versions := (T.version + 1) :: sys.tree.versions, lastSaved := none, orphans := [] }
+      refine ⟨{ sys with st := st', tree := t' }, ?_, ?_, ?_, ?_⟩
+      · simp only [stepH, saveVersion, hcont, hra, hown.latest, hown.version, Bool.false_eq_true, if_false, ne_eq,
+          not_true_eq_false, Option.map_some, Option.map_none]
+        rfl
+      · rw [hTsave, hr]
+        have hst : RepStable H sys.st st' := fun P t x h => Rep.with_roots H _ h
+        exact {
+          cache := hown.cache
+          dbwf := hown.dbwf
+          root := trivial
+          last := trivial
+          version := rfl
+          tversions := by
+            show (T.version + 1) :: sys.tree.versions = _
+            rw [hown.tversions]; rfl
+          roots := by
+            show (T.version + 1, none) :: sys.st.roots = _
+            rw [hown.roots]; rfl
+          indb := by
+            intro p hp t ht
+            rcases List.mem_cons.mp hp with rfl | hp
+            · cases ht
+            · exact hown.indb p hp t ht
+          latest := by
+            show St.latestVersion st' = T.version + 1
+            rw [latestVersion_cons, hown.latest]; omega
+          wf := by rw [← hr, ← hTsave]; exact hwf'
+          views := views_stable H hst hown.views }
+      · exact fun P t x h => Rep.with_roots H _ h
+      · exact ⟨fun x c hc => ⟨c, hc, cellLe_refl c⟩, Nat.le_refl _, fun _ _ h => h⟩
+  | some t =>
+    have hroot := hown.root
+    rw [hr] at hroot
+    cases hra : sys.tree.root with
+    | none => rw [hra] at hroot; cases hroot
+    | some a =>
+      rw [hra] at hroot
+      have hord : t.Ord := by
+        have := hown.wf.root
+        rw [hr] at this
+        exact Node.Inv.ord this
+      obtain ⟨st1, e1, hs1, hc1, hwf1, ca, hca, hpa⟩ :=
+        saveBranch_spec H hinj t fuel All sys.st a (hfuel.1 t hr) hroot hord hown.cache hown.dbwf
+      have hrep1 : Rep H All st1 t a := hs1.stable All t a hroot
+      have hindb : InDB H st1.db t := Rep.inDB_of_persisted H hrep1 hca hpa
+      let st' : St := { st1 with roots := (T.version + 1, some (treeHash H t)) :: st1.roots }
+      have hlat1 : st1.latestVersion = T.version := by
+        rw [← hown.latest]; simp only [St.latestVersion, hs1.roots]
+      have hst : RepStable H sys.st st' := fun P t x h => Rep.with_roots H _ (hs1.stable P t x h)
+      let t' : MT := { root := some a, version := T.version + 1, versions := (T.version + 1) :: sys.tree.versions, lastSaved := some a, orphans := [] }
+      refine ⟨{ sys with st := st', tree := t' }, ?_, ?_, hst, ?_⟩
+      · simp only [stepH, saveVersion, hcont, hra, e1, hlat1, hown.version, Bool.false_eq_true, if_false, ne_eq,
+          not_true_eq_false, Option.map_some, Option.bind_eq_bind, Option.bind_some]
+        rfl
+      · rw [hTsave, hr]
+        exact {
+          cache := hc1
+          dbwf := hwf1
+          root := Rep.with_roots H _ hrep1
+          last := Rep.with_roots H _ hrep1
+          version := rfl
+          tversions := by
+            show (T.version + 1) :: sys.tree.versions = _
+            rw [hown.tversions]; rfl
+          roots := by
+            show (T.version + 1, some (treeHash H t)) :: st1.roots = _
+            rw [hs1.roots, hown.roots]; rfl
+          indb := by
+            intro p hp t' ht'
+            rcases List.mem_cons.mp hp with rfl | hp
+            · cases ht'; exact hindb
+            · exact InDB.mono H hs1.grows.db (hown.indb p hp t' ht')
+          latest := by
+            show St.latestVersion st' = T.version + 1
+            rw [latestVersion_cons, hlat1]; omega
+          wf := by rw [← hr, ← hTsave]; exact hwf'
+          views := views_stable H hst hown.views }
+      · exact ⟨hs1.grows.cells, hs1.grows.len, hs1.grows.db⟩
+
 end Iavl.Heap
